@@ -33,6 +33,7 @@ var polluteNames = []string{
 	"decode-cose-garbage+other-token",
 	"derived-profile-documents-refused-midway",
 	"stock-factory-claims-changed-through-their-pointers",
+	"serialisations-refused-midway",
 }
 
 func pollute(kind int) {
@@ -142,6 +143,18 @@ func pollute(kind int) {
 				_ = c1.UnmarshalJSON(wireJSON(cl[1]))
 			}
 		}
+	case 12:
+		// serialisations through the embedding-aware codec that fail after some fields were already collected (a later field,
+		// or a field of an embedded struct, refuses to be encoded), in CBOR and JSON; keys that also occur in claims-sets
+		one, str, seven := int64(1), "s", int64(7)
+		for i := 0; i < 3; i++ {
+			_, _ = encoding.SerializeStructToCBOR(extEM, &c15WithRefusing{A: &one, X: &c15Refusing{Refuse: true}, B: &str})
+			_, _ = encoding.SerializeStructToJSON(&c15WithRefusing{A: &one, X: &c15Refusing{Refuse: true}, B: &str})
+			_, _ = encoding.SerializeStructToCBOR(extEM, &c15WithRefusingEmb{c15WithRefusing: c15WithRefusing{A: &one, X: &c15Refusing{Refuse: true}}, F: &seven})
+			_, _ = encoding.SerializeStructToJSON(&c15WithRefusingEmb{c15WithRefusing: c15WithRefusing{A: &one, X: &c15Refusing{Refuse: true}}, F: &seven})
+			_, _ = encoding.SerializeStructToCBOR(extEM, &polluteRefusingClaims{Extra: &seven, Client: &one, X: &c15Refusing{Refuse: true}})
+			_, _ = encoding.SerializeStructToJSON(&polluteRefusingClaims{Extra: &seven, Client: &one, X: &c15Refusing{Refuse: true}})
+		}
 	case 9:
 		ev := &psatoken.Evidence{}
 		_ = ev.UnmarshalCOSE([]byte{0xd2, 0x84, 0x40, 0xa0, 0xf6, 0x40})
@@ -161,4 +174,12 @@ func polluteToken() []byte {
 		polluteTok = c02MakeSeed("ES256", 2, 3).tok
 	})
 	return polluteTok
+}
+
+// polluteRefusingClaims uses keys and member names of real claims-sets (the vendor claim of the derived profiles, the
+// profile-2 client id) before the field that refuses.
+type polluteRefusingClaims struct {
+	Extra  *int64       `cbor:"-75100,keyasint,omitempty" json:"extra,omitempty"`
+	Client *int64       `cbor:"2394,keyasint,omitempty" json:"psa-client-id,omitempty"`
+	X      *c15Refusing `cbor:"-75999,keyasint,omitempty" json:"x,omitempty"`
 }
